@@ -8,6 +8,9 @@ Import ListNotations.
 Ltac Zify.zify_post_hook ::= Z.div_mod_to_equations.
 Local Open Scope N_scope.
 
+Lemma Ok_inj {A} (a b : A) : Ok a = Ok b -> a = b.
+Proof. congruence. Qed.
+
 Lemma frev_rev {A} (l : list A) : frev l = rev l.
 Proof. unfold frev. symmetry. apply rev_alt. Qed.
 
